@@ -359,7 +359,9 @@ pub(crate) fn validate_directives<'dir>(
                     );
                 }
             }
-        } else {
+        } else if schema.is_some() {
+            // Without a schema there are no directive definitions to look the name up in:
+            // whether the directive exists is a question only a schema can answer.
             diagnostics.push(
                 loc,
                 DiagnosticData::UndefinedDirective { name: name.clone() },
